@@ -265,7 +265,7 @@ def build_table(node, path, table, order):
             kn, vn = content[i], content[i + 1]
             key = kn["value"] if KIND.get(kn["kind"]) == "scalar" else "?" + _flat(kn)
             if key in keys:
-                key = key + "#dup%d" % i
+                key = key + "#dup%d" % sum(1 for k in keys if k == key or k.startswith(key + "#dup"))
             keys.append(key)
             table[path + (key, "#k")] = {"a": attrs(kn), "shape": _flat(kn), "pos": (kn["l"], kn["c"]), "cm": comments_of(kn)}
             build_table(vn, path + (key,), table, order)
@@ -865,7 +865,7 @@ def classify(diffs, u, t0, doc):
         cone_comments = " ".join(c for q, e in t0.items() if is_under(P, q) for c in e.get("cm", []))
         if any(re.search(re.escape(x[1]) + r"\b", cone_comments) for x in diffs):
             return "foot-comment-moves-past-next-sibling"
-    if kinds == {"comment-lost"} and u["kind"] == "delete":
+    if kinds == {"comment-lost"} and (u["kind"] == "delete" or (u["kind"] == "assign" and t0[P]["a"][0] in ("map", "seq"))):
         lines = doc.split("\n")
         span = [e["pos"][0] for q, e in t0.items() if is_under(P, q) and e["a"][0] in ("scalar", "alias")]
         ok = bool(span)
